@@ -10,4 +10,24 @@ Register r11("C11", [](Tier t) {
     // h[0]: threads - 2 (0..2), h[1]: pre-populated subscriptions (0..3), h[2]: their key selector
     return genCase("C11", genHeader({{0, 2}, {0, 3}, {0, 7}}), ops, genSched(t == THOROUGH ? 200 : 120));
 });
+
+// ---- small-scope program space: 2 threads, each a sequence of 1-2 ops from {notify /a, subscribe /a, unsubscribe own, shrink /*},
+// one pre-populated observer at /a whose callback is gated (holds the delivery open until a writer is parked or nobody can run)
+RegisterEnum e11("C11", [] {
+    EnumSpace e;
+    e.count = 20 * 20;
+    e.description = "ConcurrentSubjectRouter programs: 2 threads x (1 or 2 ops from {notify /a, subscribe /a, unsubscribe own handle, shrink /*}), one pre-populated observer at /a with a gated callback";
+    e.at = [](size_t i) {
+        auto seq = [](size_t s) { std::vector<int> v; if (s < 4) v = {(int)s}; else { s -= 4; v = {(int)(s / 4), (int)(s % 4)}; } return v; };
+        static const int kinds[4] = {NOTIFY, SUBSCRIBE, UNSUBSCRIBE, SHRINK};
+        Case c; c.prop = "C11"; c.h = {0, 1, 0};
+        std::vector<int> a = seq(i % 20), b = seq(i / 20);
+        for (size_t k = 0; k < std::max(a.size(), b.size()); ++k) {
+            if (k < a.size()) c.ops.push_back(Op{kinds[a[k]], 0, 1, kinds[a[k]] == SHRINK ? 4 : 0});
+            if (k < b.size()) c.ops.push_back(Op{kinds[b[k]], 1, 1, kinds[b[k]] == SHRINK ? 4 : 0});
+        }
+        return c;
+    };
+    return e;
+}());
 } // namespace
